@@ -659,6 +659,9 @@ def atomic_diffs(a, b, path="", out=None):
     if isinstance(a, tuple) and isinstance(b, tuple):
         if len(a) != len(b):
             return None
+        if path.endswith("/args") and not ta and len(a) > 1 and sorted(map(repr, a)) == sorted(map(repr, b)):
+            out.append(f"{path}: positional arguments permuted")
+            return out
         for i, (x, y) in enumerate(zip(a, b, strict=True)):
             if x == y:
                 continue
@@ -689,8 +692,9 @@ def _is_logging(t):
 
 def _is_append_to_local(t, frame):
     """Mutating method calls on locals are already part of the value graph (mut nodes)."""
-    return t[0] == "call" and t[1][0] == "attr" and t[1][2] in (
-        "append", "extend", "update", "add", "pop", "insert", "remove", "setdefault", "clear", "sort", "reverse")
+    from lcmsa.core import _MUTATORS
+
+    return t[0] == "call" and t[1][0] == "attr" and t[1][2] in _MUTATORS
 
 
 def _mask_func(t, q):
